@@ -18,3 +18,17 @@ func BE32(b []byte, i int) uint32 {
 func BE64(b []byte, i int) uint64 {
 	return uint64(BE32(b, i))<<32 | uint64(BE32(b, i+4))
 }
+
+// EqBytes reports a[alo+i] == b[blo+i] for 0 <= i < n (false if a range is out of bounds).
+// It is the executable reading of the contract builtin eqbytes.
+func EqBytes[A, B interface{ ~[]byte | ~string }](a A, alo int, b B, blo int, n int) bool {
+	if n < 0 || alo < 0 || blo < 0 || alo+n > len(a) || blo+n > len(b) {
+		return n <= 0
+	}
+	for i := 0; i < n; i++ {
+		if a[alo+i] != b[blo+i] {
+			return false
+		}
+	}
+	return true
+}
